@@ -23,7 +23,7 @@ VComposeMalloc(x) == LET ql == ListOf(x.list) IN
 VDissect(x) ==
      FailIf(x.fault # 0, "C17", "dissecting read outside the range")
   \o FailIf(x.fault = 0 /\ (x.rc # 0 \/ ListOf(x.list) # Dissect(x.in, x.ps, x.conv)), "C17", "dissected list differs")
-  \o FailIf(x.rc = 0 /\ x.count # Len(x.list), "C17", "item count differs from the list length")
+  \o FailIf(x.rc = 0 /\ ~x.nocount /\ x.count # Len(x.list), "C17", "item count differs from the list length")
   \o FailIf(x.leak # 0 \/ ~Balanced(Ledger(x.mem)), "C13", "blocks of the supplied manager left outstanding or wrongly released")
 \* the allocating calls with a request of the supplied manager refused: a REPORTED success is the fault-free result; a refused request ends
 \* in the out-of-memory code (C14) with nothing left outstanding (C13)
